@@ -1,9 +1,14 @@
 (* RulesProofs.v — C12: the constraint the writer emits means, to protovalidate,
-   exactly what the j5s declaration says; for all values. *)
+   exactly what the j5s declaration says; for all values.
+   Three layers: (1) boolean decision procedures for the declarative spec
+   (model/RulesSpec.v) with their reflection lemmas; (2) the validator model on
+   the writer's output equals the decision procedure (for evaluable
+   declarations) and is an error otherwise; (3) the statements. *)
 From Coq Require Import String List NArith ZArith Bool Lia ZifyN ZifyNat ZifyBool.
 From J5V.lib Require Import Outcome.
-From J5V.model Require Import RulesDecl RulesWrite Validate Id62.
+From J5V.model Require Import RulesDecl RulesWrite RulesSpec Validate RulesSpecDec Id62.
 From J5V.gen Require Id62Gen.
+From J5V.proofs Require Id62Proofs.
 Import ListNotations.
 Local Open Scope Z_scope.
 
@@ -99,7 +104,40 @@ Proof.
   apply Z.ltb_ge in E. apply Z.leb_le. exact E.
 Qed.
 
-Lemma int_sem rm defined k r c z :
+
+(* ================================================================ layer 1 *)
+(* boolean decision procedures for model/RulesSpec.v, each with its reflection lemma *)
+
+(* ---------------------------------------------------------------- bounds *)
+
+Lemma is_true_flag o : is_true o = true <-> flag_set o.
+Proof. unfold flag_set. destruct o as [[|]|]; cbn; split; intro H; congruence. Qed.
+
+Lemma int_rule_ok_spec r z : int_rule_ok r z = true <-> int_sem r z.
+Proof.
+  unfold int_rule_ok, int_sem. destruct r as [mn mx xmn xmx]; cbn [ir_min ir_max ir_xmin ir_xmax].
+  rewrite andb_true_iff.
+  assert (Hlo : forall (mn : option Z) (xmn : option bool) (lt le : Z -> Z -> bool) (Plt Ple : Z -> Z -> Prop),
+             (forall a b, lt a b = true <-> Plt a b) -> (forall a b, le a b = true <-> Ple a b) ->
+             (match mn with None => true | Some m => if is_true xmn then lt m z else le m z end = true <->
+              forall m, mn = Some m -> (flag_set xmn -> Plt m z) /\ (~ flag_set xmn -> Ple m z))).
+  { clear. intros mn xmn lt le Plt Ple Hlt Hle. destruct mn as [a|].
+    - destruct (is_true xmn) eqn:E.
+      + apply is_true_flag in E. rewrite Hlt. split.
+        * intros H m Hm. inversion Hm; subst. split; [auto|tauto].
+        * intros H. apply (H a eq_refl). exact E.
+      + assert (Hn : ~ flag_set xmn) by (intro Hf; apply is_true_flag in Hf; congruence).
+        rewrite Hle. split.
+        * intros H m Hm. inversion Hm; subst. split; [tauto|auto].
+        * intros H. apply (H a eq_refl). exact Hn.
+    - split; [intros _ m Hm; discriminate|reflexivity]. }
+  rewrite (Hlo mn xmn Z.ltb Z.leb Z.lt Z.le Z.ltb_lt Z.leb_le).
+  rewrite (Hlo mx xmx (fun m z => Z.ltb z m) (fun m z => Z.leb z m) (fun m z => z < m) (fun m z => z <= m)
+             (fun a b => Z.ltb_lt b a) (fun a b => Z.leb_le b a)).
+  reflexivity.
+Qed.
+
+Lemma int_sem_b rm defined k r c z :
   write_int_rules k r = Ok c ->
   eval_scalar rm defined c (VInt z) = int_rule_ok r z.
 Proof.
@@ -118,7 +156,144 @@ Proof.
            end; cbn; try reflexivity; try lia.
 Qed.
 
+(* ---------------------------------------------------------------- lengths, counts *)
+
+Lemma within_spec lo hi n : within_b lo hi n = true <-> within lo hi n.
+Proof.
+  unfold within_b, within, opt_leN, opt_geN. rewrite andb_true_iff.
+  destruct lo as [a|], hi as [b|]; rewrite ?N.leb_le; split.
+  all: try (intros [H1 H2]; split; intros m Hm; inversion Hm; subst; assumption).
+  all: try (intros [H1 H2]; split; try reflexivity; first [apply H1|apply H2]; reflexivity).
+  all: try (intros _; split; intros m Hm; discriminate).
+Qed.
+
+(* the validator's string length: the number of code points *)
+Lemma rune_count_enc1 c : filter (fun b => negb (is_cont b)) (utf8_enc1 c) = [hd 0%N (utf8_enc1 c)].
+Proof.
+  unfold utf8_enc1.
+  assert (Hc : forall x, is_cont (128 + x mod 64) = true).
+  { intro x. unfold is_cont. pose proof (N.mod_upper_bound x 64 ltac:(discriminate)).
+    apply andb_true_iff. split; [apply N.leb_le|apply N.ltb_lt]; lia. }
+  assert (Hf : forall k q, (192 <= k)%N -> is_cont (k + q) = false).
+  { intros k q Hk. unfold is_cont. apply andb_false_iff. right. apply N.ltb_ge. lia. }
+  destruct (N.ltb_spec c 128) as [H1|H1].
+  - cbn [filter hd]. unfold is_cont. destruct (N.leb_spec 128 c); [lia|]. reflexivity.
+  - destruct (N.ltb_spec c 2048) as [H2|H2].
+    + cbn [filter hd]. rewrite Hc, Hf by lia. reflexivity.
+    + destruct (N.ltb_spec c 65536) as [H3|H3]; cbn [filter hd]; rewrite !Hc, Hf by lia; reflexivity.
+Qed.
+
+Lemma cel_size_len s : cel_size s = len s.
+Proof.
+  unfold cel_size, rune_count, utf8_enc, len. f_equal.
+  induction s as [|c r IH]; [reflexivity|].
+  cbn [flat_map]. rewrite filter_app, app_length, IH, rune_count_enc1. reflexivity.
+Qed.
+
+(* ---------------------------------------------------------------- uuid, id62 *)
+Lemma is_hex_spec c : is_hex c = true <-> hex_digit c.
+Proof.
+  unfold is_hex, hex_digit. rewrite !orb_true_iff, !andb_true_iff, !N.leb_le. tauto.
+Qed.
+
+Lemma take_hex_spec n : forall s r,
+  take_hex n s = Some r <-> exists a, s = a ++ r /\ length a = n /\ Forall hex_digit a.
+Proof.
+  induction n as [|n IH]; intros s r; cbn [take_hex].
+  - split.
+    + intro H. inversion H; subst. exists []. split; [reflexivity|]. split; [reflexivity|constructor].
+    + intros [a [Hs [Hl _]]]. destruct a; [|discriminate]. subst. reflexivity.
+  - destruct s as [|c t].
+    + split; [discriminate|]. intros [a [Hs [Hl _]]]. destruct a; discriminate.
+    + destruct (is_hex c) eqn:E.
+      * rewrite IH. split.
+        -- intros [a [Hs [Hl Hf]]]. exists (c :: a). subst. split; [reflexivity|]. split; [reflexivity|].
+           constructor; [apply is_hex_spec; exact E|exact Hf].
+        -- intros [a [Hs [Hl Hf]]]. destruct a as [|c' a]; [discriminate|].
+           inversion Hs; subst. inversion Hf; subst. exists a. split; [reflexivity|].
+           split; [cbn in Hl; congruence|assumption].
+      * split; [discriminate|]. intros [a [Hs [Hl Hf]]]. destruct a as [|c' a]; [discriminate|].
+        inversion Hs; subst. inversion Hf as [|? ? Hc _]; subst. apply is_hex_spec in Hc. congruence.
+Qed.
+
+Lemma take_dash_spec s r : take_dash s = Some r <-> s = 45%N :: r.
+Proof.
+  unfold take_dash. destruct s as [|c t]; [split; discriminate|].
+  destruct (N.eqb_spec c 45).
+  - subst. split; intro H; inversion H; reflexivity.
+  - split; [discriminate|]. intro H; inversion H; congruence.
+Qed.
+
+Lemma uuid_regex_spec s : uuid_regex s = true <-> uuid_text s.
+Proof.
+  unfold uuid_regex, uuid_text. split.
+  - destruct (take_hex 8 s) as [s1|] eqn:E1; cbn [obnd]; [|discriminate].
+    destruct (take_dash s1) as [s2|] eqn:D1; cbn [obnd]; [|discriminate].
+    destruct (take_hex 4 s2) as [s3|] eqn:E2; cbn [obnd]; [|discriminate].
+    destruct (take_dash s3) as [s4|] eqn:D2; cbn [obnd]; [|discriminate].
+    destruct (take_hex 4 s4) as [s5|] eqn:E3; cbn [obnd]; [|discriminate].
+    destruct (take_dash s5) as [s6|] eqn:D3; cbn [obnd]; [|discriminate].
+    destruct (take_hex 4 s6) as [s7|] eqn:E4; cbn [obnd]; [|discriminate].
+    destruct (take_dash s7) as [s8|] eqn:D4; cbn [obnd]; [|discriminate].
+    destruct (take_hex 12 s8) as [[|? ?]|] eqn:E5; try discriminate. intros _.
+    apply take_hex_spec in E1 as [a [Ha [La Fa]]]. apply take_dash_spec in D1.
+    apply take_hex_spec in E2 as [b [Hb [Lb Fb]]]. apply take_dash_spec in D2.
+    apply take_hex_spec in E3 as [c [Hc [Lc Fc]]]. apply take_dash_spec in D3.
+    apply take_hex_spec in E4 as [d [Hd [Ld Fd]]]. apply take_dash_spec in D4.
+    apply take_hex_spec in E5 as [e [He [Le Fe]]].
+    exists a, b, c, d, e. subst. rewrite app_nil_r. repeat split; try assumption.
+    repeat (apply Forall_app; split); assumption.
+  - intros [a [b [c [d [e [Hs [La [Lb [Lc [Ld [Le Hf]]]]]]]]]]].
+    apply Forall_app in Hf as [Fa Hf]. apply Forall_app in Hf as [Fb Hf].
+    apply Forall_app in Hf as [Fc Hf]. apply Forall_app in Hf as [Fd Fe].
+    subst s.
+    assert (H1 : forall n x rest, length x = n -> Forall hex_digit x -> take_hex n (x ++ rest) = Some rest).
+    { intros n x rest Hl Hx. apply take_hex_spec. exists x. auto. }
+    rewrite (H1 8%nat a _ La Fa). cbn [obnd app take_dash N.eqb Pos.eqb].
+    rewrite (H1 4%nat b _ Lb Fb). cbn [obnd app take_dash N.eqb Pos.eqb].
+    rewrite (H1 4%nat c _ Lc Fc). cbn [obnd app take_dash N.eqb Pos.eqb].
+    rewrite (H1 4%nat d _ Ld Fd). cbn [obnd app take_dash N.eqb Pos.eqb].
+    rewrite <- (app_nil_r e). rewrite (H1 12%nat e [] Le Fe). reflexivity.
+Qed.
+
+Lemma uuid_regex_nil : uuid_regex [] = false.
+Proof. reflexivity. Qed.
+
+
+Lemma alnum_b_spec c : alnum_b c = true <-> alnum c.
+Proof. unfold alnum_b, alnum. rewrite !orb_true_iff, !andb_true_iff, !N.leb_le. tauto. Qed.
+
+Lemma forallb_Forall {A} (f : A -> bool) (P : A -> Prop) (l : list A) :
+  (forall x, f x = true <-> P x) -> (forallb f l = true <-> Forall P l).
+Proof.
+  intro H. induction l as [|x r IH]; cbn [forallb].
+  - split; [constructor|reflexivity].
+  - rewrite andb_true_iff, IH, H. split.
+    + intros [H1 H2]. constructor; assumption.
+    + intro H0. inversion H0; auto.
+Qed.
+
+Lemma id62_ok_spec s : id62_ok s = true <-> id62_text s.
+Proof.
+  unfold id62_ok, id62_text. rewrite andb_true_iff, Nat.eqb_eq.
+  rewrite (forallb_Forall alnum_b alnum s alnum_b_spec). reflexivity.
+Qed.
+
+(* the class-count matcher of C20 decides the published id62 pattern as the spec reads it *)
+Lemma class_count_id62 s : re_class_count Id62Gen.pattern_string s = id62_ok s.
+Proof.
+  unfold re_class_count. rewrite Id62Proofs.pattern_parsed. unfold matches, id62_ok. cbn [fst snd].
+  f_equal.
+  - destruct (Nat.eqb_spec (length s) 22) as [E|E].
+    + rewrite E. reflexivity.
+    + apply N.eqb_neq. lia.
+  - induction s as [|c r IH]; [reflexivity|]. cbn [forallb]. rewrite IH. f_equal.
+    unfold in_class, Id62Proofs.id62_class, alnum_b. cbn [existsb fst snd].
+    rewrite orb_false_r. rewrite orb_assoc. reflexivity.
+Qed.
+
 (* ---------------------------------------------------------------- uniqueness *)
+
 Lemma value_eqb_sym a b : value_eqb a b = value_eqb b a.
 Proof.
   destruct a, b; cbn; try reflexivity.
@@ -127,6 +302,8 @@ Proof.
   - apply str_eqb_sym.
   - destruct b0, b; reflexivity.
   - apply Z.eqb_sym.
+  - unfold f_eq. rewrite (N.eqb_sym bits bits0), (andb_comm (negb (f_nan bits))), (andb_comm (f_abs bits =? 0)%N). reflexivity.
+  - apply N.eqb_sym.
 Qed.
 
 Lemma unique_scan_spec vs : forall seen,
@@ -152,32 +329,82 @@ Proof.
   symmetry. apply forallb_forall. intros; reflexivity.
 Qed.
 
-(* ---------------------------------------------------------------- uuid *)
-Lemma uuid_at_late s : forall pos, (36 < pos)%nat -> uuid_at pos s = false.
+
+(* ---------------------------------------------------------------- uniqueness *)
+
+Lemma f_nan_spec x : f_nan x = true <-> float_nan x.
+Proof. unfold f_nan, float_nan, f_abs. apply N.ltb_lt. Qed.
+
+Lemma f_eq_spec x y : f_eq x y = true <-> same_number x y.
 Proof.
-  induction s as [|c r IH]; intros pos H; cbn [uuid_at].
-  - apply Nat.eqb_neq. lia.
-  - rewrite IH by lia. apply andb_false_r.
+  unfold f_eq, same_number, float_zero, f_abs.
+  rewrite !andb_true_iff, orb_true_iff, andb_true_iff, !negb_true_iff, !N.eqb_eq.
+  rewrite <- !not_true_iff_false, !f_nan_spec. unfold f_abs. tauto.
 Qed.
 
-Lemma uuid_equiv s :
-  is_uuid s = (match s with [] => true | _ => uuid_regex s end)
-              && negb (match s with [] => true | _ => false end).
+Lemma value_eqb_spec a b : value_eqb a b = true <-> same_item a b.
 Proof.
-  unfold is_uuid, uuid_regex.
-  do 36 (destruct s as [|? s];
-         [vm_compute; reflexivity|];
-         cbn [uuid_at take_hex take_dash obnd Nat.eqb orb andb negb];
-         try match goal with
-             | |- context [is_hex ?c] => destruct (is_hex c); cbn [andb obnd]; [|reflexivity]
-             | |- context [N.eqb ?c 45] => destruct (N.eqb c 45); cbn [andb obnd]; [|reflexivity]
-             end).
-  destruct s as [|c s]; [reflexivity|].
-  cbn [uuid_at]. rewrite uuid_at_late by lia. rewrite andb_false_r. reflexivity.
+  destruct a, b; cbn [value_eqb same_item]; try (split; [discriminate|intro H; discriminate H]).
+  - rewrite Z.eqb_eq. split; intro H; [subst|inversion H]; reflexivity.
+  - rewrite str_eqb_eq. split; intro H; [subst|inversion H]; reflexivity.
+  - rewrite str_eqb_eq. split; intro H; [subst|inversion H]; reflexivity.
+  - destruct b0, b; cbn; split; intro H; try reflexivity; try discriminate; inversion H.
+  - rewrite Z.eqb_eq. split; intro H; [subst|inversion H]; reflexivity.
+  - apply f_eq_spec.
+  - rewrite N.eqb_eq. split; intro H; [subst|inversion H]; reflexivity.
 Qed.
+
+Lemma all_different_cons v r :
+  all_different (v :: r) <-> (forall b, In b r -> ~ same_item v b) /\ all_different r.
+Proof.
+  unfold all_different. split.
+  - intro H. split.
+    + intros b Hin. apply In_nth_error in Hin as [j Hj].
+      apply (H O (S j) v b); [lia|reflexivity|exact Hj].
+    + intros i j a b Hij Ha Hb. apply (H (S i) (S j) a b); [lia|exact Ha|exact Hb].
+  - intros [H1 H2] i j a b Hij Ha Hb. destruct j as [|j]; [lia|]. cbn in Hb.
+    destruct i as [|i]; cbn in Ha.
+    + inversion Ha; subst. apply H1. eapply nth_error_In; eauto.
+    + apply (H2 i j a b); [lia|exact Ha|exact Hb].
+Qed.
+
+Lemma distinct_spec vs : distinct vs = true <-> all_different vs.
+Proof.
+  induction vs as [|v r IH]; cbn [distinct].
+  - split; [|reflexivity]. intros _ i j a b _ Ha. destruct i; discriminate.
+  - rewrite all_different_cons, andb_true_iff, IH, negb_true_iff.
+    rewrite <- not_true_iff_false, existsb_exists. split.
+    + intros [H1 H2]. split; [|exact H2]. intros b Hin Hs. apply H1. exists b. split; [exact Hin|].
+      apply value_eqb_spec. exact Hs.
+    + intros [H1 H2]. split; [|exact H2]. intros [b [Hin Hb]]. apply (H1 b Hin). apply value_eqb_spec. exact Hb.
+Qed.
+
+(* without floats, "all different" is NoDup *)
+Lemma all_different_NoDup vs :
+  existsb is_float_value vs = false -> (all_different vs <-> NoDup vs).
+Proof.
+  induction vs as [|v r IH]; intro Hf.
+  - split; [constructor|]. intros _ i j a b _ Ha. destruct i; discriminate.
+  - cbn [existsb] in Hf. apply orb_false_iff in Hf as [Hv Hr].
+    rewrite all_different_cons, (IH Hr). split.
+    + intros [H1 H2]. constructor; [|exact H2]. intro Hin. apply (H1 v Hin).
+      destruct v; try reflexivity. discriminate.
+    + intro H. inversion H as [|? ? Hnin Hnd]; subst. split; [|exact Hnd].
+      intros b Hin Hs. apply Hnin.
+      assert (v = b) by (destruct v, b; try exact Hs; try discriminate). subst. exact Hin.
+Qed.
+
+
+(* ---------------------------------------------------------------- enums: deciding the spec *)
+(* full name of the option with number n (n >= 1) *)
+
+
 
 (* ---------------------------------------------------------------- enums *)
-Definition fulls (env : enum_env) : list str := map (with_prefix env) (ee_options env).
+(* full names of the enum's values that a rule can name: the explicit zero option, the options *)
+Definition zero_full (env : enum_env) : list str :=
+  match ee_zero env with Some z => [with_prefix env z] | None => [] end.
+Definition fulls (env : enum_env) : list str := zero_full env ++ map (with_prefix env) (ee_options env).
 
 Fixpoint nodup_str (l : list str) : bool :=
   match l with
@@ -193,6 +420,18 @@ Qed.
 
 (* the enum's value names are pairwise different (protobuf requires it) *)
 Definition wf_env (env : enum_env) : bool := nodup_str (fulls env).
+
+Lemma wf_env_parts env :
+  wf_env env = true ->
+  NoDup (map (with_prefix env) (ee_options env)) /\
+  (forall z, ee_zero env = Some z -> ~ In (with_prefix env z) (map (with_prefix env) (ee_options env))).
+Proof.
+  intro H. apply nodup_str_NoDup in H. unfold fulls, zero_full in H.
+  destruct (ee_zero env) as [z0|].
+  - cbn [app] in H. inversion H as [|? ? Hn Hd]; subst. split; [exact Hd|].
+    intros z Hz. inversion Hz; subst. exact Hn.
+  - split; [exact H|]. intros z Hz. discriminate.
+Qed.
 
 Lemma lookup_from_some env opts : forall i nm z,
   lookup_from env opts i nm = Some z ->
@@ -235,18 +474,24 @@ Qed.
 
 Lemma option_name_spec env n nm :
   option_name env n = Some nm <->
-  exists o, 1 <= n /\ nth_error (ee_options env) (Z.to_nat (n - 1)) = Some o /\ nm = with_prefix env o.
+  (exists o, 1 <= n /\ nth_error (ee_options env) (Z.to_nat (n - 1)) = Some o /\ nm = with_prefix env o)
+  \/ (n = 0 /\ exists z, ee_zero env = Some z /\ nm = with_prefix env z).
 Proof.
-  unfold option_name. split.
-  - destruct ((1 <=? n) && (n <=? Z.of_nat (length (ee_options env)))) eqn:E; [|discriminate].
-    apply andb_true_iff in E as [E1 E2]. apply Z.leb_le in E1.
-    destruct (nth_error (ee_options env) (Z.to_nat (n - 1))) as [o|] eqn:En; [|discriminate].
-    intro H; inversion H; subst. exists o. auto.
-  - intros [o [H1 [Hn Hnm]]].
-    assert (Hlt : (Z.to_nat (n - 1) < length (ee_options env))%nat).
-    { apply nth_error_Some. congruence. }
-    destruct (Z.leb_spec 1 n); [|lia]. destruct (Z.leb_spec n (Z.of_nat (length (ee_options env)))); [|lia].
-    cbn. rewrite Hn. subst. reflexivity.
+  unfold option_name. destruct (Z.eqb_spec n 0) as [E0|E0].
+  - subst n. split.
+    + destruct (ee_zero env) as [z|]; [|discriminate]. intro H; inversion H; subst. right.
+      split; [reflexivity|]. exists z. split; reflexivity.
+    + intros [[o [H1 _]]|[_ [z [Hz Hnm]]]]; [lia|]. rewrite Hz. congruence.
+  - split.
+    + destruct ((1 <=? n) && (n <=? Z.of_nat (length (ee_options env)))) eqn:E; [|discriminate].
+      apply andb_true_iff in E as [E1 E2]. apply Z.leb_le in E1.
+      destruct (nth_error (ee_options env) (Z.to_nat (n - 1))) as [o|] eqn:En; [|discriminate].
+      intro H; inversion H; subst. left. exists o. auto.
+    + intros [[o [H1 [Hn Hnm]]]|[Hz _]]; [|contradiction].
+      assert (Hlt : (Z.to_nat (n - 1) < length (ee_options env))%nat).
+      { apply nth_error_Some. congruence. }
+      destruct (Z.leb_spec 1 n); [|lia]. destruct (Z.leb_spec n (Z.of_nat (length (ee_options env)))); [|lia].
+      cbn. rewrite Hn. subst. reflexivity.
 Qed.
 
 Lemma map_values_forall2 env names : forall zs,
@@ -259,6 +504,53 @@ Proof.
     inversion H; subst. constructor; [exact E|apply IH; reflexivity].
 Qed.
 
+Lemma Forall2_in_r {A B} (R : A -> B -> Prop) l l' y :
+  Forall2 R l l' -> In y l' -> exists x, In x l /\ R x y.
+Proof.
+  induction 1 as [|a b r r' Hab Hr IH]; intro Hin; [destruct Hin|].
+  destruct Hin as [Heq|Hin].
+  - subst. exists a. split; [left; reflexivity|exact Hab].
+  - destruct (IH Hin) as [x [Hx HR]]. exists x. split; [right; exact Hx|exact HR].
+Qed.
+Lemma Forall2_in_l {A B} (R : A -> B -> Prop) l l' x :
+  Forall2 R l l' -> In x l -> exists y, In y l' /\ R x y.
+Proof.
+  induction 1 as [|a b r r' Hab Hr IH]; intro Hin; [destruct Hin|].
+  destruct Hin as [Heq|Hin].
+  - subst. exists b. split; [left; reflexivity|exact Hab].
+  - destruct (IH Hin) as [y [Hy HR]]. exists y. split; [right; exact Hy|exact HR].
+Qed.
+
+(* the number a name is mapped to is the number of the option of that full name ... *)
+Lemma map_value_name env name z :
+  map_value env name = Some z -> option_name env z = Some (with_prefix env name).
+Proof.
+  unfold map_value. intro H.
+  destruct (lookup_from env (ee_options env) 1 (with_prefix env name)) as [n|] eqn:E.
+  - inversion H; subst n. apply lookup_from_some in E as [k [o [Hk [Hz Hp]]]].
+    apply option_name_spec. left. exists o. split; [lia|]. split; [|congruence].
+    replace (Z.to_nat (z - 1)) with k by lia. exact Hk.
+  - destruct (ee_zero env) as [zn|] eqn:Ez; [|discriminate].
+    destruct (str_eqb (with_prefix env zn) (with_prefix env name)) eqn:Es; [|discriminate].
+    inversion H; subst z. apply str_eqb_eq in Es.
+    apply option_name_spec. right. split; [reflexivity|]. exists zn. split; [exact Ez|congruence].
+Qed.
+
+(* ... and, the value names being pairwise different, conversely *)
+Lemma name_map_value env name n :
+  wf_env env = true ->
+  option_name env n = Some (with_prefix env name) -> map_value env name = Some n.
+Proof.
+  intros Hwf H. apply wf_env_parts in Hwf as [Hnd Hz]. unfold map_value.
+  apply option_name_spec in H as [[o [H1 [Hn Hnm]]]|[H0 [z [Hzn Hnm]]]].
+  - rewrite Hnm. rewrite (lookup_from_nth env (ee_options env) 1 (Z.to_nat (n - 1)) o Hnd Hn).
+    f_equal. lia.
+  - subst n. destruct (lookup_from env (ee_options env) 1 (with_prefix env name)) as [m|] eqn:E.
+    + exfalso. apply lookup_from_some in E as [k [o [Hk [_ Hp]]]].
+      apply (Hz z Hzn). rewrite <- Hnm, <- Hp. apply in_map. eapply nth_error_In; eauto.
+    + rewrite Hzn, Hnm, str_eqb_refl. reflexivity.
+Qed.
+
 (* a number is among the mapped ones iff its option name is among the listed names *)
 Lemma mapped_mem env names zs n :
   wf_env env = true -> map_values env names = Ok zs ->
@@ -267,58 +559,380 @@ Lemma mapped_mem env names zs n :
               | None => false
               end.
 Proof.
-  intros Hwf Hm. apply nodup_str_NoDup in Hwf. apply map_values_forall2 in Hm.
+  intros Hwf Hm. apply map_values_forall2 in Hm.
   destruct (option_name env n) as [nm|] eqn:Eo.
-  - apply option_name_spec in Eo as [o [H1 [Hn Hnm]]]. subst nm.
-    apply eq_true_iff_eq. rewrite memZ_In, mem_str_In. unfold names_full. split.
-    + intro Hin. induction Hm as [|x z l l' Hx Hm IH]; [destruct Hin|].
-      destruct Hin as [Heq|Hin].
-      * subst z. unfold map_value in Hx. apply lookup_from_some in Hx as [k [o' [Hk [Hz Hp]]]].
-        assert (k = Z.to_nat (n - 1)) by lia. subst k. rewrite Hk in Hn. inversion Hn; subst.
-        cbn. left. symmetry. exact Hp.
-      * cbn. right. apply IH. exact Hin.
-    + intro Hin. induction Hm as [|x z l l' Hx Hm IH]; [destruct Hin|].
-      cbn in Hin. destruct Hin as [Heq|Hin].
-      * left. unfold map_value in Hx. rewrite Heq in Hx.
-        rewrite (lookup_from_nth env (ee_options env) 1 (Z.to_nat (n - 1)) o Hwf Hn) in Hx.
-        assert (Hz : 1 + Z.of_nat (Z.to_nat (n - 1)) = z) by congruence. lia.
-      * right. apply IH. exact Hin.
+  - apply eq_true_iff_eq. rewrite memZ_In, mem_str_In. unfold names_full. rewrite in_map_iff. split.
+    + intro Hin. destruct (Forall2_in_r _ _ _ _ Hm Hin) as [name [Hname Hv]].
+      exists name. split; [|exact Hname]. apply map_value_name in Hv. congruence.
+    + intros [name [Hp Hname]]. destruct (Forall2_in_l _ _ _ _ Hm Hname) as [z [Hz Hv]].
+      rewrite <- Hp in Eo. rewrite (name_map_value env name n Hwf Eo) in Hv. inversion Hv; subst. exact Hz.
   - destruct (memZ n zs) eqn:E; [|reflexivity]. exfalso.
-    apply memZ_In in E.
-    induction Hm as [|x z l l' Hx Hm IH]; [destruct E|].
-    destruct E as [Heq|Hin]; [|apply IH; exact Hin].
-    subst z. unfold map_value in Hx. apply lookup_from_some in Hx as [k [o' [Hk [Hz Hp]]]].
-    assert (Hs : option_name env n = Some (with_prefix env o')).
-    { apply option_name_spec. exists o'. split; [lia|]. split; [|reflexivity].
-      replace (Z.to_nat (n - 1)) with k by lia. exact Hk. }
-    congruence.
+    apply memZ_In in E. destruct (Forall2_in_r _ _ _ _ Hm E) as [name [_ Hv]].
+    apply map_value_name in Hv. congruence.
 Qed.
 
 Lemma option_name_defined env n nm :
   option_name env n = Some nm -> memZ n (defined_numbers env) = true.
 Proof.
-  intro H. unfold option_name in H.
-  destruct ((1 <=? n) && (n <=? Z.of_nat (length (ee_options env)))) eqn:E; [|discriminate].
-  apply andb_true_iff in E as [E1 E2]. apply Z.leb_le in E1. apply Z.leb_le in E2.
-  apply memZ_In. unfold defined_numbers. right.
+  intro H. apply memZ_In. unfold defined_numbers.
+  apply option_name_spec in H as [[o [H1 [Hn _]]]|[H0 _]]; [|left; auto].
+  right. assert (Hlt : (Z.to_nat (n - 1) < length (ee_options env))%nat) by (apply nth_error_Some; congruence).
   apply in_map_iff. exists (Z.to_nat n). split; [lia|]. apply in_seq. lia.
 Qed.
 
-(* ================================================================ C12 *)
+
+Lemma and_iff2 (A B C D : Prop) : (A <-> B) -> (C <-> D) -> (A /\ C <-> B /\ D).
+Proof. tauto. Qed.
+
+Lemma has_prefix_spec p s : has_prefix p s = true <-> exists rest, s = p ++ rest.
+Proof.
+  revert s. induction p as [|x r IH]; intro s; cbn [has_prefix].
+  - split; [intros _; exists s; reflexivity|reflexivity].
+  - destruct s as [|y t].
+    + split; [discriminate|]. intros [rest H]. discriminate.
+    + rewrite andb_true_iff, N.eqb_eq, IH. split.
+      * intros [Hx [rest Hr]]. subst. exists rest. reflexivity.
+      * intros [rest H]. inversion H; subst. split; [reflexivity|]. exists rest. reflexivity.
+Qed.
+
+Lemma full_name_spec env x f : full_name env x f <-> f = with_prefix env x.
+Proof.
+  unfold full_name, with_prefix. destruct (has_prefix (ee_prefix env) x) eqn:E.
+  - apply has_prefix_spec in E. split.
+    + intros [[_ H]|[Hn _]]; [exact H|contradiction].
+    + intro H. left. auto.
+  - assert (Hn : ~ exists rest, x = ee_prefix env ++ rest).
+    { intro H. apply has_prefix_spec in H. congruence. }
+    split.
+    + intros [[Hp _]|[_ H]]; [contradiction|exact H].
+    + intro H. right. auto.
+Qed.
+
+Lemma names_value_spec env name n :
+  names_value env name n <-> option_name env n = Some (with_prefix env name).
+Proof.
+  rewrite option_name_spec. unfold names_value. split.
+  - intros [[i [o [f [Hn [Hi [Ho Hf]]]]]]|[H0 [z [f [Hz [Ho Hf]]]]]].
+    + apply full_name_spec in Ho, Hf. subst. left.
+      exists o. split; [lia|]. split; [|congruence].
+      replace (Z.to_nat (Z.of_nat (S i) - 1)) with i by lia. exact Hn.
+    + apply full_name_spec in Ho, Hf. subst. right. split; [reflexivity|]. exists z. split; [exact Hz|congruence].
+  - intros [[o [H1 [Hn Hf]]]|[H0 [z [Hz Hf]]]].
+    + left. exists (Z.to_nat (n - 1)), o, (with_prefix env o).
+      split; [exact Hn|]. split; [lia|]. split; apply full_name_spec; [reflexivity|symmetry; exact Hf].
+    + right. split; [exact H0|]. exists z, (with_prefix env z).
+      split; [exact Hz|]. split; apply full_name_spec; [reflexivity|symmetry; exact Hf].
+Qed.
+
+Lemma defined_value_spec env n : memZ n (defined_numbers env) = true <-> defined_value env n.
+Proof.
+  rewrite memZ_In. unfold defined_numbers, defined_value. cbn [In]. split.
+  - intros [H|H]; [left; auto|]. right.
+    apply in_map_iff in H as [k [Hk Hin]]. apply in_seq in Hin.
+    destruct (nth_error (ee_options env) (k - 1)) as [o|] eqn:E.
+    + exists (k - 1)%nat, o. split; [exact E|lia].
+    + apply nth_error_None in E. lia.
+  - intros [H|[i [o [Hn Hi]]]]; [left; auto|]. right.
+    apply in_map_iff. exists (S i). split; [auto|]. apply in_seq.
+    assert (i < length (ee_options env))%nat by (apply nth_error_Some; congruence). lia.
+Qed.
+
+Lemma enum_ok_spec env r n : enum_ok env r n = true <-> enum_sem env r n.
+Proof.
+  unfold enum_ok, enum_sem. rewrite andb_true_iff, defined_value_spec.
+  apply and_iff_compat_l. destruct r as [r|]; [|tauto].
+  unfold enum_rule_ok. rewrite andb_true_iff. apply and_iff2.
+  - destruct (er_in r) as [|i0 ir] eqn:Ein.
+    + split; [intros _ H; congruence|reflexivity].
+    + rewrite <- Ein. split.
+      * intros H _. destruct (option_name env n) as [nm|] eqn:Eo; [|discriminate].
+        apply mem_str_In in H. unfold names_full in H. apply in_map_iff in H as [name [Hn Hin]].
+        exists name. split; [exact Hin|]. apply names_value_spec. congruence.
+      * intro H. destruct H as [name [Hin Hv]]; [rewrite Ein; discriminate|].
+        apply names_value_spec in Hv. rewrite Hv. apply mem_str_In. unfold names_full.
+        apply in_map. exact Hin.
+  - destruct (option_name env n) as [nm|] eqn:Eo.
+    + rewrite negb_true_iff, <- not_true_iff_false, mem_str_In. unfold names_full. split.
+      * intros H name Hin Hv. apply names_value_spec in Hv. apply H. apply in_map_iff.
+        exists name. split; [congruence|exact Hin].
+      * intros H Hin. apply in_map_iff in Hin as [name [Hn Hin]]. apply (H name Hin).
+        apply names_value_spec. congruence.
+    + split; [|reflexivity]. intros _ name _ Hv. apply names_value_spec in Hv. congruence.
+Qed.
+
+(* ---------------------------------------------------------------- one value against its type *)
+Section Decide.
+(* the engine's matcher decides the declared meaning of patterns *)
+Variable re_match : str -> str -> bool.
+Variable pat_sem : str -> str -> Prop.
+Hypothesis re_dec : forall p s, re_match p s = true <-> pat_sem p s.
+Local Notation str_rule_ok := (RulesSpecDec.str_rule_ok re_match).
+Local Notation key_ok := (RulesSpecDec.key_ok re_match).
+Local Notation ty_ok := (RulesSpecDec.ty_ok re_match).
+Local Notation rule_semb := (RulesSpecDec.rule_semb re_match).
+Local Notation rule_objb := (RulesSpecDec.rule_objb re_match).
+
+
+Lemma str_rule_ok_spec r s : str_rule_ok r s = true <-> str_sem pat_sem r s.
+Proof.
+  unfold str_rule_ok, str_sem. rewrite andb_true_iff, within_spec. apply and_iff_compat_l.
+  destruct (sr_pat r) as [p|]; split; intro H.
+  - intros p' Hp. inversion Hp; subst. apply re_dec. exact H.
+  - apply re_dec. apply H. reflexivity.
+  - intros p' Hp. discriminate.
+  - reflexivity.
+Qed.
+
+
+
+Lemma key_ok_spec f s : key_ok f s = true <-> key_sem pat_sem f s.
+Proof.
+  destruct f; cbn [key_ok key_sem]; [tauto|apply re_dec|apply uuid_regex_spec|apply id62_ok_spec].
+Qed.
+
+
+Lemma ty_ok_spec env t v : ty_ok env t v = true <-> ty_sem pat_sem env t v.
+Proof.
+  destruct t as [k r l|sf r l|r|r l|r l|f e l|f64 fr l|r l|r l|tr l|od ts l|fl orl|orr l], v; cbn [ty_ok ty_sem];
+    try tauto;
+    try (destruct r as [r|]); try (destruct f as [f|]); try tauto;
+    first [ apply int_rule_ok_spec | apply str_rule_ok_spec | apply within_spec | apply enum_ok_spec
+          | apply key_ok_spec | (destruct r as [c|]; [rewrite eqb_true_iff; tauto|tauto]) | (destruct r; tauto) ].
+Qed.
+
+(* ---------------------------------------------------------------- presence *)
+Lemma is_zero_spec v : is_zero v = true <-> default_value v.
+Proof.
+  destruct v; cbn [is_zero default_value].
+  - apply Z.eqb_eq.
+  - destruct s; split; congruence.
+  - destruct b; split; congruence.
+  - destruct b; cbn; split; congruence.
+  - apply Z.eqb_eq.
+  - apply N.eqb_eq.
+  - split; [discriminate|tauto].
+Qed.
+
+Lemma is_msg_ty_spec t : is_msg_ty t = true <-> message_typed t.
+Proof. destruct t; cbn; split; intro H; try discriminate; try tauto; try reflexivity. Qed.
+
+Lemma is_primary_ty_spec t : is_primary_ty t = true <-> primary_key t.
+Proof.
+  destruct t as [k r l|sf r l|r|r l|r l|f e l|f64 fr l|r l|r l|tr l|od ts l|fl orl|orr l]; cbn; try (split; [discriminate|tauto]).
+  destruct e as [[ty tn]|]; cbn; [|split; [discriminate|tauto]].
+  destruct ty as [[[|]|p n]|]; split; intro H; try discriminate; try reflexivity; inversion H.
+Qed.
+
+Lemma must_b_spec d : must_b d = true <-> must_be_set d.
+Proof.
+  unfold must_b, must_be_set. rewrite orb_true_iff. apply or_iff_compat_l.
+  destruct (p_ty d); [apply is_primary_ty_spec| |]; split; [discriminate|tauto|discriminate|tauto].
+Qed.
+
+Lemma nonempty_spec {A} (l : list A) : nonempty l = true <-> l <> [].
+Proof. destruct l; cbn; split; congruence. Qed.
+
+(* ---------------------------------------------------------------- a property *)
+
+Lemma if_must d (b : bool) (P : Prop) :
+  (b = true <-> P) -> ((if must_b d then b else true) = true <-> (must_be_set d -> P)).
+Proof.
+  intro H. destruct (must_b d) eqn:E.
+  - apply must_b_spec in E. rewrite H. tauto.
+  - assert (~ must_be_set d) by (intro Hm; apply must_b_spec in Hm; congruence). tauto.
+Qed.
+
+Lemma opt_rule {A} (r : option A) (f : A -> bool) (P : A -> Prop) :
+  (forall a, f a = true <-> P a) ->
+  (match r with Some a => f a | None => true end = true <-> forall a, r = Some a -> P a).
+Proof.
+  intro H. destruct r as [a|]; split; intro H0.
+  - intros a' Ha. inversion Ha; subst. apply H. exact H0.
+  - apply H. apply H0. reflexivity.
+  - intros a Ha. discriminate.
+  - reflexivity.
+Qed.
+
+Lemma arr_rule_ok_spec r vs : arr_rule_ok r vs = true <-> arr_sem r vs.
+Proof.
+  unfold arr_rule_ok, arr_sem. rewrite andb_true_iff, within_spec. apply and_iff_compat_l.
+  destruct (is_true (ar_uniq r)) eqn:E.
+  - apply is_true_flag in E. rewrite distinct_spec. tauto.
+  - assert (~ flag_set (ar_uniq r)) by (intro Hf; apply is_true_flag in Hf; congruence). tauto.
+Qed.
+
+Theorem rule_semb_spec env d fv : rule_semb env d fv = true <-> rule_sem pat_sem env d fv.
+Proof.
+  unfold rule_semb, rule_sem. destruct (p_ty d) as [t|r sf t|r t], fv as [|v|vs|kvs]; try tauto.
+  - rewrite negb_true_iff, <- not_true_iff_false, must_b_spec. tauto.
+  - rewrite andb_true_iff, ty_ok_spec. apply and_iff2; [|tauto].
+    apply if_must. rewrite !orb_true_iff, negb_true_iff, <- not_true_iff_false, is_zero_spec, is_msg_ty_spec.
+    unfold own_presence. tauto.
+  - rewrite !andb_true_iff, <- and_assoc.
+    rewrite (forallb_Forall (ty_ok env t) (ty_sem pat_sem env t) vs (ty_ok_spec env t)).
+    rewrite (if_must d (nonempty vs) (vs <> []) (nonempty_spec vs)).
+    rewrite (opt_rule r (fun r => arr_rule_ok r vs) (fun r => arr_sem r vs) (fun a => arr_rule_ok_spec a vs)).
+    tauto.
+  - rewrite !andb_true_iff, <- and_assoc.
+    rewrite (forallb_Forall (fun kv => ty_ok env t (snd kv)) (fun kv => ty_sem pat_sem env t (snd kv)) kvs
+               (fun kv => ty_ok_spec env t (snd kv))).
+    rewrite (if_must d (nonempty kvs) (kvs <> []) (nonempty_spec kvs)).
+    rewrite (opt_rule r (fun r => within_b (mr_min r) (mr_max r) (count kvs)) (fun r => map_sem r kvs)
+               (fun a => within_spec (mr_min a) (mr_max a) (count kvs))).
+    tauto.
+Qed.
+
+
+Lemma rule_objb_spec env ds : forall fvs, rule_objb env ds fvs = true <-> rule_obj pat_sem env ds fvs.
+Proof.
+  unfold rule_obj. induction ds as [|d r IH]; intros [|v s]; cbn [rule_objb].
+  - split; [constructor|reflexivity].
+  - split; [discriminate|intro H; inversion H].
+  - split; [discriminate|intro H; inversion H].
+  - rewrite andb_true_iff, rule_semb_spec, IH. split.
+    + intros [H1 H2]. constructor; assumption.
+    + intro H. inversion H; auto.
+Qed.
+
+End Decide.
+
+(* ================================================================ layer 2 *)
+(* the validator model on what the writer emits *)
 Definition elem_ty (t : pty) : fty := match t with PSingle t | PArray _ _ t | PMap _ t => t end.
 
-(* admissible declaration: the referenced enum is well-formed (its value names
-   are pairwise different, as protobuf requires). Nothing is asked of the rules:
-   what the compiler accepts is meant as declared. *)
-Definition admissible (env : enum_env) (d : prop) : bool := wf_env env.
+(* the enum's value names are pairwise different (protobuf requires it): wf_env, above *)
+
+(* entity.primaryKey only on a singular key property: "It is only valid in the
+   keys object of an entity" (schema.proto); inside an array or a map it has no
+   declared meaning *)
+Definition key_placement_ok (d : prop) : bool :=
+  match p_ty d with
+  | PSingle _ => true
+  | PArray _ _ t | PMap _ t => negb (is_primary_ty t)
+  end.
+
+Definition unique_on_messages (d : prop) : bool :=
+  match p_ty d with
+  | PArray (Some r) _ t => is_true (ar_uniq r) && is_msg_ty t
+  | _ => false
+  end.
+
+(* ---- the two-valued core of the validator model, and where the errors are ---- *)
+Section Core.
+Variable re_ok : str -> bool.
+Variable re_match : str -> str -> bool.
+
+Definition eval_tyc_b (defined : list Z) (t : tyc) (fv : fvalue) : bool :=
+  match t, fv with
+  | CRep mn mx uq items, FMany vs =>
+      opt_leN mn (N.of_nat (length vs)) && opt_geN mx (N.of_nat (length vs))
+      && (if is_true uq then unique_scan [] vs else true)
+      && match items with
+         | Some it => forallb (eval_scalar re_match defined it) vs
+         | None => true
+         end
+  | CMap mn mx values, FMap kvs =>
+      opt_leN mn (N.of_nat (length kvs)) && opt_geN mx (N.of_nat (length kvs))
+      && match values with
+         | Some vt => forallb (fun kv => eval_scalar re_match defined vt (snd kv)) kvs
+         | None => true
+         end
+  | _, FOne v => eval_scalar re_match defined t v
+  | _, _ => true
+  end.
+
+Definition validate_b (defined : list Z) (o : fout) (fv0 : fvalue) : bool :=
+  match fo_val o with
+  | None => true
+  | Some c =>
+      let fv := got o fv0 in
+      let has := populated o fv in
+      if c_req c && negb has then false
+      else if has_presence o && negb has then true
+      else match c_ty c with
+           | Some t => eval_tyc_b defined t fv
+           | None => true
+           end
+  end.
+
+(* repeated.unique on a non-empty list of messages *)
+Definition runtime_fails (o : fout) (fv : fvalue) : bool :=
+  match fo_val o, fv with
+  | Some c, FMany vs =>
+      match c_ty c with
+      | Some (CRep _ _ uq _) => is_true uq && existsb is_msg_value vs
+      | _ => false
+      end
+  | _, _ => false
+  end.
+
+Lemma eval_tyc_split defined t fv :
+  eval_tyc re_match defined t fv =
+  match t, fv with
+  | CRep _ _ uq _, FMany vs =>
+      if is_true uq && existsb is_msg_value vs then VError ERuntime else of_bool (eval_tyc_b defined t fv)
+  | _, _ => of_bool (eval_tyc_b defined t fv)
+  end.
+Proof. destruct t, fv; reflexivity. Qed.
+
+(* the validator model = compile error | runtime error | the two-valued core *)
+Lemma validate_sem_split defined o fv :
+  validate_sem re_ok re_match defined o fv =
+  if negb (field_compiles re_ok o) then VError ECompile
+  else if runtime_fails o fv then VError ERuntime
+  else of_bool (validate_b defined o fv).
+Proof.
+  unfold validate_sem, validate_b, runtime_fails.
+  destruct (field_compiles re_ok o); cbn [negb]; [|reflexivity].
+  destruct (fo_val o) as [c|]; [|destruct fv; reflexivity].
+  destruct fv as [|v|vs|kvs].
+  - unfold got, populated. destruct (has_presence o) eqn:Ep.
+    + cbn [negb andb]. rewrite ?andb_true_r. destruct (c_req c); reflexivity.
+    + cbn [andb].
+      destruct (c_req c && negb (negb (is_zero (zero_value (fo_kind o))))); [reflexivity|].
+      destruct (c_ty c) as [t|]; [|reflexivity]. rewrite eval_tyc_split. destruct t; reflexivity.
+  - cbn [got]. destruct (c_req c && negb (populated o (FOne v))); [reflexivity|].
+    destruct (has_presence o && negb (populated o (FOne v))); [reflexivity|].
+    destruct (c_ty c) as [t|]; [|reflexivity]. rewrite eval_tyc_split. destruct t; reflexivity.
+  - cbn [got]. destruct vs as [|v0 vr].
+    + cbn [populated negb existsb]. rewrite !andb_true_r.
+      assert (Hrf : match c_ty c with Some (CRep _ _ uq _) => is_true uq && false | _ => false end = false).
+      { destruct (c_ty c) as [[]|]; try reflexivity. apply andb_false_r. }
+      rewrite Hrf. destruct (c_req c); [reflexivity|]. destruct (has_presence o); [reflexivity|].
+      destruct (c_ty c) as [t|]; [|reflexivity]. rewrite eval_tyc_split.
+      destruct t; try reflexivity. cbn [existsb]. rewrite andb_false_r. reflexivity.
+    + cbn [populated negb]. rewrite !andb_false_r.
+      destruct (c_ty c) as [t|]; [|reflexivity]. rewrite eval_tyc_split. destruct t; reflexivity.
+  - cbn [got]. destruct (c_req c && negb (populated o (FMap kvs))); [reflexivity|].
+    destruct (has_presence o && negb (populated o (FMap kvs))); [reflexivity|].
+    destruct (c_ty c) as [t|]; [|reflexivity]. rewrite eval_tyc_split. destruct t; reflexivity.
+Qed.
+
+End Core.
 
 Definition is_absent (fv : fvalue) : bool := match fv with FAbsent => true | _ => false end.
 
 Section C12.
+Variable re_ok : str -> bool.
 Variable re_match : str -> str -> bool.
+Variable pat_sem : str -> str -> Prop.
+Hypothesis re_dec : forall p s, re_match p s = true <-> pat_sem p s.
 (* the one pattern the compiler itself introduces: the regular expression engine
-   decides the published id62 pattern as C20's matcher does *)
-Hypothesis re_id62 : forall s, re_match Id62Gen.pattern_string s = id62_shape s.
+   compiles the published id62 pattern and decides it as the spec reads key:id62 *)
+Hypothesis re_id62_ok : re_ok Id62Gen.pattern_string = true.
+Hypothesis re_id62 : forall s, re_match Id62Gen.pattern_string s = id62_ok s.
+
+(* every pattern the declaration carries compiles *)
+Definition fty_patterns_ok (t : fty) : bool :=
+  match t with
+  | TStr _ (Some r) _ => match sr_pat r with Some p => re_ok p | None => true end
+  | TKey (Some (KCustom p)) _ _ => re_ok p
+  | _ => true
+  end.
+
+(* the validator can evaluate what the declaration compiles to *)
+Definition evaluable (d : prop) : bool :=
+  fty_patterns_ok (elem_ty (p_ty d)) && negb (unique_on_messages d).
 
 Definition item_ok (defined : list Z) (w : fieldw) (v : value) : bool :=
   match fw_val w with
@@ -338,17 +952,17 @@ Lemma scalar_sem env t w v :
   item_ok (defined_numbers env) w v = ty_ok re_match env t v.
 Proof.
   intros Hwf Hw Hty. unfold item_ok.
-  destruct t as [k r l|sf r l|r|r l|r l|f e l|f64 l|r l|r l|l|od ts l|fl|l]; cbn [write_field] in Hw.
+  destruct t as [k r l|sf r l|r|r l|r l|f e l|f64 fr l|r l|r l|tr l|od ts l|fl orl|orr l]; cbn [write_field] in Hw.
   - (* integer *)
     apply obind_ok in Hw as [vo [Hv Hw]]. inversion Hw; subst w; clear Hw. cbn [fw_val].
     destruct v; try discriminate. destruct r as [r|].
     + apply obind_ok in Hv as [c [Hc Hv]]. inversion Hv; subst vo. cbn [only_ty c_ty].
-      cbn [ty_ok]. eapply int_sem; eauto.
+      cbn [ty_ok]. eapply int_sem_b; eauto.
     + inversion Hv; subst. reflexivity.
   - (* string *)
     inversion Hw; subst w; clear Hw. cbn [fw_val]. destruct v; try discriminate.
     destruct r as [r|]; [|reflexivity]. cbn [only_ty c_ty eval_scalar ty_ok].
-    unfold str_ok, str_rule_ok. rewrite andb_true_r. reflexivity.
+    unfold str_ok, str_rule_ok, within_b. rewrite cel_size_len, andb_true_r. reflexivity.
   - (* bytes *)
     inversion Hw; subst w; clear Hw. cbn [fw_val]. destruct v; try discriminate.
     destruct r as [r|]; [|reflexivity]. cbn [only_ty c_ty eval_scalar ty_ok]. reflexivity.
@@ -357,7 +971,7 @@ Proof.
     destruct r as [[c|]|]; reflexivity.
   - (* enum *)
     apply obind_ok in Hw as [io [Hio Hw]]. inversion Hw; subst w; clear Hw.
-    cbn [fw_val only_ty c_ty]. destruct v; try discriminate. cbn [eval_scalar ty_ok].
+    cbn [fw_val only_ty c_ty]. destruct v; try discriminate. cbn [eval_scalar ty_ok]. unfold enum_ok.
     destruct r as [r|].
     + apply obind_ok in Hio as [zi [Hzi Hio]]. apply obind_ok in Hio as [zn [Hzn Hio]].
       inversion Hio; subst io; clear Hio. cbn [fst snd].
@@ -379,26 +993,51 @@ Proof.
     destruct v; try discriminate. destruct f as [[|p| |]|]; cbn [only_ty c_ty eval_scalar ty_ok key_ok]; unfold str_ok; cbn [opt_leN opt_geN andb].
     + reflexivity.
     + rewrite andb_true_r. reflexivity.
-    + rewrite uuid_equiv. reflexivity.
+    + destruct s as [|c0 s0]; [reflexivity|]. rewrite andb_true_r. reflexivity.
     + rewrite andb_true_r. apply re_id62.
     + reflexivity.
-  - destruct v; discriminate.
+  - destruct fr; [discriminate|]. inversion Hw; subst w. destruct v; reflexivity.
   - inversion Hw; subst w. destruct v; reflexivity.
   - inversion Hw; subst w. destruct v; reflexivity.
+  - inversion Hw; subst w. destruct tr, v; reflexivity.
   - inversion Hw; subst w. destruct v; reflexivity.
-  - inversion Hw; subst w. destruct v; reflexivity.
-  - inversion Hw; subst w. destruct v; reflexivity.
-  - inversion Hw; subst w. destruct v; reflexivity.
+  - inversion Hw; subst w. destruct orl, v; reflexivity.
+  - inversion Hw; subst w. destruct orr, v; reflexivity.
+Qed.
+
+(* the patterns of the emitted constraint are those of the declaration (and the id62 pattern) *)
+Lemma write_field_compiles env t w :
+  write_field env t = Ok w ->
+  match fw_val w with
+  | Some c => match c_ty c with Some tc => tyc_compiles re_ok tc | None => true end
+  | None => true
+  end = fty_patterns_ok t.
+Proof.
+  intro Hw.
+  destruct t as [k r l|sf r l|r|r l|r l|f e l|f64 fr l|r l|r l|tr l|od ts l|fl orl|orr l]; cbn [write_field] in Hw; try (destruct fr; [discriminate Hw|]);
+    try (apply obind_ok in Hw as [x [Hx Hw]]);
+    inversion Hw; subst w; cbn [fw_val fty_patterns_ok]; try reflexivity.
+  - destruct r as [r|].
+    + apply obind_ok in Hx as [c [Hc Hx]]. inversion Hx; subst x. cbn.
+      apply write_int_ok in Hc as [_ Hc]. subst c. reflexivity.
+    + inversion Hx; subst. reflexivity.
+  - destruct r as [r|]; [|reflexivity]. cbn. destruct (sr_pat r); reflexivity.
+  - destruct r; reflexivity.
+  - destruct r; reflexivity.
+  - destruct f as [[|p| |]|]; cbn; try reflexivity. exact re_id62_ok.
+  - destruct tr; reflexivity.
+  - destruct orl; reflexivity.
+  - destruct orr; reflexivity.
 Qed.
 
 Lemma write_field_primary env t w :
   write_field env t = Ok w ->
-  match fw_key w with Some k => kx_primary k | None => false end = is_primary (PSingle t).
+  match fw_key w with Some k => kx_primary k | None => false end = is_primary_ty t.
 Proof.
   intro Hw.
-  destruct t as [k r l|sf r l|r|r l|r l|f e l|f64 l|r l|r l|l|od ts l|fl|l]; cbn [write_field] in Hw;
+  destruct t as [k r l|sf r l|r|r l|r l|f e l|f64 fr l|r l|r l|tr l|od ts l|fl orl|orr l]; cbn [write_field] in Hw; try (destruct fr; [discriminate Hw|]);
     try (apply obind_ok in Hw as [x [Hx Hw]]);
-    inversion Hw; subst w; cbn [fw_key is_primary]; try reflexivity.
+    inversion Hw; subst w; cbn [fw_key is_primary_ty]; try reflexivity.
   destruct e as [[ty tn]|]; [|reflexivity]. cbn. destruct ty as [[[|]|]|]; reflexivity.
 Qed.
 
@@ -406,34 +1045,29 @@ Lemma write_field_msg env t w :
   write_field env t = Ok w -> is_msg_kind (fw_kind w) = is_msg_ty t.
 Proof.
   intro Hw.
-  destruct t as [k r l|sf r l|r|r l|r l|f e l|f64 l|r l|r l|l|od ts l|fl|l]; cbn [write_field] in Hw;
+  destruct t as [k r l|sf r l|r|r l|r l|f e l|f64 fr l|r l|r l|tr l|od ts l|fl orl|orr l]; cbn [write_field] in Hw; try (destruct fr; [discriminate Hw|]);
     try (apply obind_ok in Hw as [x [Hx Hw]]);
     inversion Hw; subst w; cbn [fw_kind is_msg_ty]; try reflexivity.
   - destruct k; reflexivity.
   - destruct f64; reflexivity.
 Qed.
 
-(* message-typed fields carry no (buf.validate.field) type constraint *)
-Lemma write_field_msg_noval env t w :
-  write_field env t = Ok w -> is_msg_ty t = true -> fw_val w = None.
-Proof.
-  intros Hw Hm.
-  destruct t as [k r l|sf r l|r|r l|r l|f e l|f64 l|r l|r l|l|od ts l|fl|l]; try discriminate; cbn [write_field] in Hw;
-    inversion Hw; reflexivity.
-Qed.
-
 Lemma forallb_true {A} (l : list A) : forallb (fun _ => true) l = true.
 Proof. induction l; cbn; auto. Qed.
 
-Lemma is_primary_array r sf t : is_primary (PArray r sf t) = is_primary (PSingle t).
-Proof. reflexivity. Qed.
+(* a constraint without a type accepts every value *)
+Lemma forallb_empty defined (l : list value) : forallb (eval_scalar re_match defined CEmpty) l = true.
+Proof. induction l as [|v r IH]; [reflexivity|]. cbn [forallb]. rewrite IH. destruct v; reflexivity. Qed.
+Lemma forallb_empty_snd defined (l : list (str * value)) :
+  forallb (fun kv => eval_scalar re_match defined CEmpty (snd kv)) l = true.
+Proof. induction l as [|v r IH]; [reflexivity|]. cbn [forallb]. rewrite IH. destruct (snd v); reflexivity. Qed.
 
 (* buildField never sets required *)
 Lemma write_field_noreq env t w c :
   write_field env t = Ok w -> fw_val w = Some c -> c_req c = false.
 Proof.
   intros Hwt. revert c.
-  destruct t as [k r l|sf r l|r|r l|r l|f e l|f64 l|r l|r l|l|od ts l|fl|l]; cbn [write_field] in Hwt;
+  destruct t as [k r l|sf r l|r|r l|r l|f e l|f64 fr l|r l|r l|tr l|od ts l|fl orl|orr l]; cbn [write_field] in Hwt; try (destruct fr; [discriminate Hwt|]);
     try (apply obind_ok in Hwt as [x [Hx Hwt]]);
     try (destruct r; try discriminate);
     inversion Hwt; subst w; cbn [fw_val]; intros c Ev; try discriminate;
@@ -442,35 +1076,39 @@ Proof.
     assert (Hc : c = C false (Some c0)) by congruence. rewrite Hc. reflexivity.
   - congruence.
   - destruct f as [[| | |]|]; inversion Ev; reflexivity.
+  - destruct tr; inversion Ev; reflexivity.
+  - destruct orl; inversion Ev; reflexivity.
+  - destruct orr; inversion Ev; reflexivity.
 Qed.
 
-(* C12: for every admissible declaration that compiles and every value of the
-   compiled field, the validator accepts iff the declared rules are satisfied *)
-Theorem c12_main env idx d o fv :
-  admissible env d = true ->
+(* the two-valued core on the writer's output decides the declared rules *)
+Theorem c12_core env idx d o fv :
+  wf_env env = true ->
+  key_placement_ok d = true ->
   write_prop env idx d = Ok o ->
   fvalue_typed d fv = true ->
-  validate_sem re_match (defined_numbers env) o fv = rule_sem re_match env d fv.
+  validate_b re_match (defined_numbers env) o fv = rule_semb re_match env d fv.
 Proof.
-  intros Hadm Hw Hty.
-  unfold admissible in Hadm. rename Hadm into Hwf.
+  intros Hwf Hkp Hw Hty.
   destruct d as [name req opt ty desc]. cbn [p_name p_req p_opt p_ty p_desc] in *.
   unfold write_prop in Hw. cbn [p_name p_req p_opt p_ty p_desc] in Hw.
   apply obind_ok in Hw as [w [Hwf0 Hw]].
+  unfold key_placement_ok in Hkp. cbn [p_ty] in Hkp.
+  unfold rule_semb, must_b. cbn [p_req p_opt p_ty].
   destruct ty as [t|r sf t|r t].
   - (* singular *)
     rename Hwf0 into Hwt.
     pose proof (write_field_primary env t w Hwt) as Hprim.
     pose proof (write_field_msg env t w Hwt) as Hmsg.
-    rewrite Hprim in Hw. set (required := req || is_primary (PSingle t)) in *.
+    rewrite Hprim in Hw. set (required := req || is_primary_ty t) in *.
     destruct (opt && required) eqn:Eor; [destruct required; discriminate|].
-    assert (Ho : o = FO name (idx + 1)%N (fw_kind w) false opt (opt || is_msg_kind (fw_kind w))
+    assert (Ho : o = FO name (Strcase.to_snake name) (idx + 1)%N (fw_kind w) false opt (opt || is_msg_kind (fw_kind w))
                        (if required then set_required (fw_val w) else fw_val w)
                        (fw_ext w) (fw_list w) (fw_key w) desc).
     { destruct required; inversion Hw; reflexivity. }
     clear Hw. subst o.
-    unfold validate_sem, rule_sem, got, populated, has_presence.
-    cbn [fo_val fo_pres fo_kind fo_rep fo_opt p_req p_opt p_ty]. fold required.
+    unfold validate_b, got, populated, has_presence.
+    cbn [fo_val fo_pres fo_kind fo_rep fo_opt].
     rewrite Hmsg.
     unfold fvalue_typed in Hty. cbn [p_ty p_opt] in Hty.
     destruct fv as [|v|vs|kvs]; [| |discriminate|discriminate].
@@ -482,11 +1120,11 @@ Proof.
         rewrite (write_field_noreq env t w c Hwt Ev). reflexivity.
     + pose proof (scalar_sem env t w v Hwf Hwt Hty) as Hs. unfold item_ok in Hs.
       assert (He : forall tc, eval_scalar re_match (defined_numbers env) tc v
-                              = eval_tyc re_match (defined_numbers env) tc (FOne v))
+                              = eval_tyc_b re_match (defined_numbers env) tc (FOne v))
         by (intro tc; destruct tc; reflexivity).
       assert (Hs' : match fw_val w with
                     | Some c => match c_ty c with
-                                | Some tc => eval_tyc re_match (defined_numbers env) tc (FOne v)
+                                | Some tc => eval_tyc_b re_match (defined_numbers env) tc (FOne v)
                                 | None => true
                                 end
                     | None => true
@@ -497,8 +1135,8 @@ Proof.
       * assert (opt = false) by (destruct opt; [discriminate|reflexivity]). subst opt.
         cbn [orb]. unfold set_required.
         destruct (is_msg_ty t) eqn:Em.
-        -- rewrite (write_field_msg_noval env t w Hwt Em) in *. cbn. exact Hs.
-        -- cbn [negb andb]. destruct (is_zero v); cbn [negb andb].
+        -- destruct (fw_val w) as [c|]; cbn [c_req c_ty andb negb orb] in *; exact Hs.
+        -- cbn [negb andb orb]. destruct (is_zero v); cbn [negb andb].
            ++ destruct (fw_val w); reflexivity.
            ++ destruct (fw_val w) as [c|]; cbn [c_req c_ty andb] in *; exact Hs.
       * cbn [andb]. destruct (fw_val w) as [c|] eqn:Ev; [|exact Hs].
@@ -508,9 +1146,8 @@ Proof.
     apply obind_ok in Hwf0 as [wi [Hwt Hwa]]. inversion Hwa; subst w; clear Hwa.
     pose proof (write_field_primary env t wi Hwt) as Hprim.
     cbn [wrap_array fw_key fw_kind fw_val fw_ext fw_list] in Hw.
-    rewrite Hprim in Hw. rewrite <- (is_primary_array r sf t) in Hw.
-    set (required := req || is_primary (PArray r sf t)) in *.
-    destruct (opt && required) eqn:Eor; [destruct required; discriminate|].
+    rewrite Hprim in Hw. apply negb_true_iff in Hkp. rewrite Hkp, orb_false_r in Hw.
+    destruct (opt && req) eqn:Eor; [destruct req; discriminate|].
     unfold fvalue_typed in Hty. cbn [p_ty] in Hty.
     destruct fv as [|v|vs|kvs]; try discriminate.
     assert (Hitems : forallb (item_ok (defined_numbers env) wi) vs = forallb (ty_ok re_match env t) vs).
@@ -518,32 +1155,32 @@ Proof.
       cbn [forallb] in *. apply andb_true_iff in Hty as [H1 H2].
       rewrite (scalar_sem env t wi v Hwf Hwt H1). rewrite IH by exact H2. reflexivity. }
     unfold item_ok in Hitems.
-    assert (Ho : fo_val o = (if required then set_required (fw_val (wrap_array r sf wi)) else fw_val (wrap_array r sf wi))
+    assert (Ho : fo_val o = (if req then set_required (fw_val (wrap_array r sf wi)) else fw_val (wrap_array r sf wi))
                  /\ fo_pres o = false /\ fo_rep o = true).
-    { destruct required; inversion Hw; cbn; auto. }
+    { destruct req; inversion Hw; cbn; auto. }
     destruct Ho as [Hov [Hop Hor]].
-    unfold validate_sem, rule_sem, got, populated, has_presence.
-    rewrite Hov, Hop. cbn [p_req p_ty]. fold required.
+    unfold validate_b, got, populated, has_presence.
+    rewrite Hov, Hop. rewrite orb_false_r.
     cbn [wrap_array fw_val].
-    unfold arr_rule_ok.
+    unfold arr_rule_ok, within_b, count, nonempty.
     destruct (fw_val wi) as [c|] eqn:Ev; cbn [is_some orb].
     + (* items carry a constraint *)
       unfold only_ty.
-      destruct required; cbn [set_required c_req c_ty andb negb];
-        destruct vs as [|v0 vr]; cbn [negb andb eval_tyc length];
+      destruct req; cbn [set_required c_req c_ty andb negb];
+        destruct vs as [|v0 vr]; cbn [negb andb eval_tyc_b length item_tyc];
         destruct r as [r|]; cbn [opt_leN opt_geN andb];
         rewrite ?unique_scan_distinct; try reflexivity;
-        destruct (c_ty c); rewrite <- ?Hitems; cbn [forallb];
+        destruct (c_ty c); rewrite <- ?Hitems, ?forallb_empty; cbn [forallb];
         rewrite ?forallb_true; cbn [andb]; rewrite ?andb_true_r; reflexivity.
     + destruct r as [r|]; cbn [is_some].
       * unfold only_ty.
-        destruct required; cbn [set_required c_req c_ty andb negb];
-          destruct vs as [|v0 vr]; cbn [negb andb eval_tyc length];
+        destruct req; cbn [set_required c_req c_ty andb negb];
+          destruct vs as [|v0 vr]; cbn [negb andb eval_tyc_b length];
           cbn [opt_leN opt_geN andb];
           rewrite ?unique_scan_distinct; try reflexivity;
           rewrite <- ?Hitems; cbn [forallb];
           rewrite ?forallb_true; cbn [andb]; rewrite ?andb_true_r; reflexivity.
-      * destruct required; cbn [set_required c_req c_ty andb negb];
+      * destruct req; cbn [set_required c_req c_ty andb negb];
           destruct vs as [|v0 vr]; cbn [negb andb];
           rewrite <- ?Hitems; cbn [forallb]; rewrite ?forallb_true; reflexivity.
   - (* map *)
@@ -563,21 +1200,21 @@ Proof.
                  /\ fo_pres o = false).
     { destruct req; inversion Hw; cbn; auto. }
     destruct Ho as [Hov Hop].
-    unfold validate_sem, rule_sem, got, populated, has_presence.
-    rewrite Hov, Hop. cbn [p_req p_ty].
-    cbn [wrap_map fw_val].
+    unfold validate_b, got, populated, has_presence.
+    rewrite Hov, Hop. rewrite orb_false_r.
+    cbn [wrap_map fw_val]. unfold within_b, count, nonempty.
     destruct (fw_val wi) as [c|] eqn:Ev; cbn [is_some orb].
     + unfold only_ty.
       destruct req; cbn [set_required c_req c_ty andb negb];
-        destruct kvs as [|kv0 kvr]; cbn [negb andb eval_tyc length];
+        destruct kvs as [|kv0 kvr]; cbn [negb andb eval_tyc_b length item_tyc];
         destruct r as [r|]; cbn [opt_leN opt_geN andb];
         try reflexivity;
-        destruct (c_ty c); rewrite <- ?Hitems; cbn [forallb];
+        destruct (c_ty c); rewrite <- ?Hitems, ?forallb_empty_snd; cbn [forallb];
         rewrite ?forallb_true; cbn [andb]; rewrite ?andb_true_r; reflexivity.
     + destruct r as [r|]; cbn [is_some].
       * unfold only_ty.
         destruct req; cbn [set_required c_req c_ty andb negb];
-          destruct kvs as [|kv0 kvr]; cbn [negb andb eval_tyc length];
+          destruct kvs as [|kv0 kvr]; cbn [negb andb eval_tyc_b length];
           cbn [opt_leN opt_geN andb];
           try reflexivity;
           rewrite <- ?Hitems; cbn [forallb];
@@ -587,7 +1224,177 @@ Proof.
           rewrite <- ?Hitems; cbn [forallb]; rewrite ?forallb_true; reflexivity.
 Qed.
 
-(* lifted to messages *)
+(* ---- where the errors are, on the writer's output -------------------------------- *)
+Definition val_ty (v : option constraint) : option tyc :=
+  match v with Some c => c_ty c | None => None end.
+
+Definition wrapped (env : enum_env) (t : pty) : outcome fieldw :=
+  match t with
+  | PSingle t => write_field env t
+  | PArray r sf t => obind (write_field env t) (fun w => Ok (wrap_array r sf w))
+  | PMap r t => obind (write_field env t) (fun w => Ok (wrap_map r w))
+  end.
+
+Lemma write_prop_inv env idx d o :
+  write_prop env idx d = Ok o ->
+  exists w, wrapped env (p_ty d) = Ok w /\ val_ty (fo_val o) = val_ty (fw_val w).
+Proof.
+  intro Hw. unfold write_prop in Hw. apply obind_ok in Hw as [w [Hw0 Hw]].
+  exists w. split; [exact Hw0|].
+  match type of Hw with (if ?c then _ else _) = _ => destruct c; [discriminate|] end.
+  inversion Hw; subst o; clear Hw. cbn [fo_val].
+  match goal with |- val_ty (if ?c then _ else _) = _ => destruct c; [|reflexivity] end.
+  unfold set_required. destruct (fw_val w); reflexivity.
+Qed.
+
+Lemma field_compiles_val o :
+  field_compiles re_ok o = match val_ty (fo_val o) with Some t => tyc_compiles re_ok t | None => true end.
+Proof. unfold field_compiles, val_ty. destruct (fo_val o); reflexivity. Qed.
+
+Lemma write_prop_compiles env idx d o :
+  write_prop env idx d = Ok o ->
+  field_compiles re_ok o = fty_patterns_ok (elem_ty (p_ty d)).
+Proof.
+  intro Hw. apply write_prop_inv in Hw as [w [Hw Hv]]. rewrite field_compiles_val, Hv. clear Hv.
+  destruct (p_ty d) as [t|r sf t|r t]; cbn [wrapped elem_ty] in *.
+  - rewrite <- (write_field_compiles env t w Hw). unfold val_ty. destruct (fw_val w); reflexivity.
+  - apply obind_ok in Hw as [wi [Hwi Hw]]. inversion Hw; subst w; clear Hw.
+    rewrite <- (write_field_compiles env t wi Hwi). cbn [wrap_array fw_val].
+    destruct (fw_val wi) as [c|]; cbn [is_some orb only_ty val_ty c_ty tyc_compiles item_tyc].
+    + destruct (c_ty c); reflexivity.
+    + destruct r; reflexivity.
+  - apply obind_ok in Hw as [wi [Hwi Hw]]. inversion Hw; subst w; clear Hw.
+    rewrite <- (write_field_compiles env t wi Hwi). cbn [wrap_map fw_val].
+    destruct (fw_val wi) as [c|]; cbn [is_some orb only_ty val_ty c_ty tyc_compiles item_tyc].
+    + destruct (c_ty c); reflexivity.
+    + destruct r; reflexivity.
+Qed.
+
+Lemma typed_msg_items t vs :
+  forallb (value_typed t) vs = true -> existsb is_msg_value vs = is_msg_ty t && nonempty vs.
+Proof.
+  induction vs as [|v r IH]; cbn [forallb existsb nonempty]; intro H.
+  - symmetry. apply andb_false_r.
+  - apply andb_true_iff in H as [Hv Hr]. rewrite (IH Hr). rewrite andb_true_r.
+    destruct t, v; cbn in Hv |- *; try discriminate; try reflexivity;
+      try (destruct r; reflexivity).
+Qed.
+
+Definition nonempty_list (fv : fvalue) : bool :=
+  match fv with FMany vs => nonempty vs | _ => false end.
+
+Lemma runtime_fails_val o fv :
+  runtime_fails o fv =
+  match val_ty (fo_val o), fv with
+  | Some (CRep _ _ uq _), FMany vs => is_true uq && existsb is_msg_value vs
+  | _, _ => false
+  end.
+Proof.
+  unfold runtime_fails, val_ty.
+  destruct (fo_val o) as [c|]; [destruct (c_ty c) as [[]|]; destruct fv; reflexivity|destruct fv; reflexivity].
+Qed.
+
+Lemma write_prop_runtime env idx d o fv :
+  write_prop env idx d = Ok o -> fvalue_typed d fv = true ->
+  runtime_fails o fv = unique_on_messages d && nonempty_list fv.
+Proof.
+  intros Hw Hty. apply write_prop_inv in Hw as [w [Hw Hv]]. rewrite runtime_fails_val, Hv. clear Hv.
+  unfold unique_on_messages, fvalue_typed in *.
+  destruct (p_ty d) as [t|r sf t|r t]; cbn [wrapped] in Hw.
+  - destruct fv; try discriminate; destruct (val_ty (fw_val w)) as [[]|]; reflexivity.
+  - destruct fv as [| |vs|]; try discriminate.
+    apply obind_ok in Hw as [wi [Hwi Hw]]. inversion Hw; subst w; clear Hw.
+    cbn [wrap_array fw_val nonempty_list]. rewrite (typed_msg_items t vs Hty).
+    destruct r as [r|].
+    + rewrite orb_true_r. cbn [only_ty val_ty c_ty]. rewrite andb_assoc. reflexivity.
+    + destruct (is_some (fw_val wi)); reflexivity.
+  - destruct fv; try discriminate.
+    apply obind_ok in Hw as [wi [Hwi Hw]]. inversion Hw; subst w; clear Hw.
+    cbn [wrap_map fw_val]. destruct (is_some (fw_val wi) || is_some r); reflexivity.
+Qed.
+
+(* C12, complete: what the validator returns for every compiled declaration and
+   every value of the compiled field *)
+Theorem c12_verdict env idx d o fv :
+  wf_env env = true ->
+  key_placement_ok d = true ->
+  write_prop env idx d = Ok o ->
+  fvalue_typed d fv = true ->
+  validate_sem re_ok re_match (defined_numbers env) o fv =
+  if negb (fty_patterns_ok (elem_ty (p_ty d))) then VError ECompile
+  else if unique_on_messages d && nonempty_list fv then VError ERuntime
+  else of_bool (rule_semb re_match env d fv).
+Proof.
+  intros Hwf Hkp Hw Hty.
+  rewrite validate_sem_split, (write_prop_compiles env idx d o Hw), (write_prop_runtime env idx d o fv Hw Hty),
+    (c12_core env idx d o fv Hwf Hkp Hw Hty).
+  reflexivity.
+Qed.
+
+(* an ill-formed pattern: every value, typed or not, gets the compilation error *)
+Theorem c12_bad_pattern env idx d o fv :
+  write_prop env idx d = Ok o ->
+  fty_patterns_ok (elem_ty (p_ty d)) = false ->
+  validate_sem re_ok re_match (defined_numbers env) o fv = VError ECompile.
+Proof.
+  intros Hw Hp. rewrite validate_sem_split, (write_prop_compiles env idx d o Hw), Hp. reflexivity.
+Qed.
+
+Lemma of_bool_accept b : of_bool b = VAccept <-> b = true.
+Proof. destruct b; cbn; split; congruence. Qed.
+
+(* C12 for the declarations the validator can evaluate: a verdict, and accept iff the declared rules hold *)
+Theorem c12_main env idx d o fv :
+  wf_env env = true ->
+  key_placement_ok d = true ->
+  evaluable d = true ->
+  write_prop env idx d = Ok o ->
+  fvalue_typed d fv = true ->
+  (validate_sem re_ok re_match (defined_numbers env) o fv = VAccept <-> rule_sem pat_sem env d fv) /\
+  (validate_sem re_ok re_match (defined_numbers env) o fv = VReject <-> ~ rule_sem pat_sem env d fv).
+Proof.
+  intros Hwf Hkp Hev Hw Hty.
+  rewrite (c12_verdict env idx d o fv Hwf Hkp Hw Hty).
+  unfold evaluable in Hev. apply andb_true_iff in Hev as [Hp Hu]. apply negb_true_iff in Hu.
+  rewrite Hp, Hu. cbn [negb andb].
+  rewrite <- (rule_semb_spec re_match pat_sem re_dec env d fv).
+  destruct (rule_semb re_match env d fv); cbn; split; split; intro H; try congruence; try reflexivity;
+    try (exfalso; apply H; reflexivity).
+Qed.
+
+(* ... and conversely: for a declaration that is not evaluable some (typed) value gets an error *)
+Theorem c12_not_evaluable env idx d o :
+  wf_env env = true ->
+  key_placement_ok d = true ->
+  evaluable d = false ->
+  write_prop env idx d = Ok o ->
+  exists fv k, fvalue_typed d fv = true /\
+    validate_sem re_ok re_match (defined_numbers env) o fv = VError k.
+Proof.
+  intros Hwf Hkp Hev Hw.
+  unfold evaluable in Hev. apply andb_false_iff in Hev as [Hp|Hu].
+  - assert (Hex : exists fv, fvalue_typed d fv = true).
+    { unfold fvalue_typed. destruct (p_ty d); [|exists (FMany []); reflexivity|exists (FMap []); reflexivity].
+      destruct t; try (eexists (FOne (VMsg 0)); reflexivity).
+      - exists (FOne (VInt 0)); reflexivity.
+      - exists (FOne (VStr [])); reflexivity.
+      - exists (FOne (VBytes [])); reflexivity.
+      - exists (FOne (VBool false)); reflexivity.
+      - exists (FOne (VEnum 0)); reflexivity.
+      - exists (FOne (VStr [])); reflexivity.
+      - exists (FOne (VFloat 0)); reflexivity. }
+    destruct Hex as [fv Hfv]. exists fv, ECompile. split; [exact Hfv|].
+    apply (c12_bad_pattern env idx d o fv Hw Hp).
+  - apply negb_false_iff in Hu. exists (FMany [VMsg 0]), (if fty_patterns_ok (elem_ty (p_ty d)) then ERuntime else ECompile).
+    assert (Hty : fvalue_typed d (FMany [VMsg 0]) = true).
+    { unfold unique_on_messages in Hu. unfold fvalue_typed. destruct (p_ty d) as [t|[r|] sf t|r t]; try discriminate.
+      apply andb_true_iff in Hu as [_ Hm]. cbn. destruct t; try discriminate; reflexivity. }
+    split; [exact Hty|].
+    rewrite (c12_verdict env idx d o _ Hwf Hkp Hw Hty), Hu.
+    destruct (fty_patterns_ok (elem_ty (p_ty d))); reflexivity.
+Qed.
+
+(* ---- lifted to messages -------------------------------------------------------------- *)
 Fixpoint typed_obj (ds : list prop) (fvs : list fvalue) : bool :=
   match ds, fvs with
   | [], [] => true
@@ -595,19 +1402,184 @@ Fixpoint typed_obj (ds : list prop) (fvs : list fvalue) : bool :=
   | _, _ => false
   end.
 
+Lemma vworst_accept a b : vworst a b = VAccept <-> a = VAccept /\ b = VAccept.
+Proof. destruct a as [| |[|]], b as [| |[|]]; cbn; split; try intros [? ?]; try congruence; auto. Qed.
+
 Theorem c12_object env ds : forall idx os fvs,
   wf_env env = true ->
+  forallb key_placement_ok ds = true ->
+  forallb evaluable ds = true ->
   write_props_from env idx ds = Ok os ->
   typed_obj ds fvs = true ->
-  validate_obj re_match (defined_numbers env) os fvs = rule_obj re_match env ds fvs.
+  (validate_obj re_ok re_match (defined_numbers env) os fvs = VAccept <-> rule_obj pat_sem env ds fvs) /\
+  (validate_obj re_ok re_match (defined_numbers env) os fvs = VReject <-> ~ rule_obj pat_sem env ds fvs).
 Proof.
-  induction ds as [|d r IH]; intros idx os fvs Hwf Hw Hty; cbn in Hw.
-  - inversion Hw; subst. destruct fvs; [reflexivity|discriminate].
+  unfold rule_obj.
+  induction ds as [|d r IH]; intros idx os fvs Hwf Hkp Hev Hw Hty; cbn in Hw.
+  - inversion Hw; subst. destruct fvs; [|discriminate]. cbn. split; split; intro H; try congruence; try constructor.
+    exfalso. apply H. constructor.
   - apply obind_ok in Hw as [o [Ho Hw]]. apply obind_ok in Hw as [os' [Hos Hw]].
     inversion Hw; subst os. destruct fvs as [|v s]; [discriminate|].
     cbn [typed_obj] in Hty. apply andb_true_iff in Hty as [Hv Hs].
-    cbn [validate_obj rule_obj].
-    rewrite (c12_main env idx d o v Hwf Ho Hv). rewrite (IH (idx + 1)%N os' s Hwf Hos Hs). reflexivity.
+    cbn [forallb] in Hkp, Hev. apply andb_true_iff in Hkp as [Hk1 Hk2]. apply andb_true_iff in Hev as [He1 He2].
+    cbn [validate_obj].
+    destruct (c12_main env idx d o v Hwf Hk1 He1 Ho Hv) as [Ha Hr].
+    destruct (IH (idx + 1)%N os' s Hwf Hk2 He2 Hos Hs) as [IHa IHr].
+    assert (Hcases : forall x, x = VAccept \/ x = VReject \/ exists k, x = VError k)
+      by (intros [| |k]; eauto).
+    assert (Hne1 : forall k, validate_sem re_ok re_match (defined_numbers env) o v <> VError k).
+    { intros k Hk. rewrite (c12_verdict env idx d o v Hwf Hk1 Ho Hv) in Hk.
+      unfold evaluable in He1. apply andb_true_iff in He1 as [Hp Hu]. apply negb_true_iff in Hu.
+      rewrite Hp, Hu in Hk. cbn in Hk. destruct (rule_semb re_match env d v); discriminate. }
+    split.
+    + rewrite vworst_accept, Ha, IHa. split.
+      * intros [H1 H2]. constructor; assumption.
+      * intro H. inversion H; auto.
+    + split.
+      * intros Hv' Hall. inversion Hall as [|? ? ? ? H1 H2]; subst.
+        apply Ha in H1. apply IHa in H2. rewrite H1, H2 in Hv'. discriminate.
+      * intro Hn.
+        destruct (Hcases (validate_sem re_ok re_match (defined_numbers env) o v)) as [E1|[E1|[k E1]]];
+          [| |exfalso; exact (Hne1 k E1)];
+          destruct (Hcases (validate_obj re_ok re_match (defined_numbers env) os' s)) as [E2|[E2|[k2 E2]]];
+          rewrite ?E1, ?E2; cbn; try reflexivity.
+        -- exfalso. apply Hn. constructor; [apply Ha; exact E1|apply IHa; exact E2].
+        -- exfalso. (* the tail cannot be an error *)
+           assert (Hd : Forall2 (rule_sem pat_sem env) r s \/ ~ Forall2 (rule_sem pat_sem env) r s).
+           { destruct (rule_objb re_match env r s) eqn:Eb.
+             - left. apply (rule_objb_spec re_match pat_sem re_dec env r s). exact Eb.
+             - right. intro Hx. apply (rule_objb_spec re_match pat_sem re_dec env r s) in Hx. congruence. }
+           destruct Hd as [Hd|Hd]; [apply IHa in Hd|apply IHr in Hd]; congruence.
+        -- exfalso.
+           assert (Hd : Forall2 (rule_sem pat_sem env) r s \/ ~ Forall2 (rule_sem pat_sem env) r s).
+           { destruct (rule_objb re_match env r s) eqn:Eb.
+             - left. apply (rule_objb_spec re_match pat_sem re_dec env r s). exact Eb.
+             - right. intro Hx. apply (rule_objb_spec re_match pat_sem re_dec env r s) in Hx. congruence. }
+           destruct Hd as [Hd|Hd]; [apply IHa in Hd|apply IHr in Hd]; congruence.
+Qed.
+
+(* a property with an ill-formed pattern makes every message of the type unvalidatable *)
+Theorem c12_bad_pattern_message env ds : forall idx os fvs,
+  write_props_from env idx ds = Ok os ->
+  length fvs = length ds ->
+  existsb (fun d => negb (fty_patterns_ok (elem_ty (p_ty d)))) ds = true ->
+  validate_obj re_ok re_match (defined_numbers env) os fvs = VError ECompile.
+Proof.
+  induction ds as [|d r IH]; intros idx os fvs Hw Hlen Hex; [discriminate|].
+  cbn in Hw. apply obind_ok in Hw as [o [Ho Hw]]. apply obind_ok in Hw as [os' [Hos Hw]].
+  inversion Hw; subst os. destruct fvs as [|v s]; [discriminate|]. cbn [validate_obj].
+  cbn [existsb] in Hex. apply orb_true_iff in Hex as [Hb|Hb].
+  - apply negb_true_iff in Hb. rewrite (c12_bad_pattern env idx d o v Ho Hb). reflexivity.
+  - rewrite (IH (idx + 1)%N os' s Hos ltac:(cbn in Hlen; congruence) Hb).
+    destruct (validate_sem re_ok re_match (defined_numbers env) o v) as [| |[|]]; reflexivity.
 Qed.
 
 End C12.
+
+(* ================================================================ layer 3: statements *)
+(* the laws a regular-expression engine must satisfy: it compiles the published
+   id62 pattern and decides it as the specification reads key:id62 *)
+Definition engine_ok (re_ok : str -> bool) (re_match : str -> str -> bool) (pat_sem : str -> str -> Prop) : Prop :=
+  (* the matcher decides the declared meaning of patterns *)
+  (forall p s, re_match p s = true <-> pat_sem p s) /\
+  (* the published id62 pattern compiles and means "22 characters of 0-9 A-Z a-z" *)
+  re_ok Id62Gen.pattern_string = true /\
+  (forall s, pat_sem Id62Gen.pattern_string s <-> id62_text s).
+
+Lemma engine_id62_bool re_ok re_match pat_sem :
+  engine_ok re_ok re_match pat_sem -> forall s, re_match Id62Gen.pattern_string s = id62_ok s.
+Proof. intros [Hd [_ H]] s. apply eq_true_iff_eq. rewrite Hd, H, id62_ok_spec. reflexivity. Qed.
+
+(* C20's class-count matcher is such an engine (its matching relation as the meaning) *)
+Lemma class_count_engine : engine_ok re_class_ok re_class_count (fun p s => re_class_count p s = true).
+Proof.
+  split; [intros; reflexivity|]. split.
+  - unfold re_class_ok. rewrite Id62Proofs.pattern_parsed. reflexivity.
+  - intro s. rewrite class_count_id62. apply id62_ok_spec.
+Qed.
+
+(* the property, unrestricted *)
+Definition c12_statement (restrict : (str -> bool) -> prop -> bool) : Prop :=
+  forall re_ok re_match pat_sem, engine_ok re_ok re_match pat_sem ->
+  forall env idx d o fv,
+    wf_env env = true -> key_placement_ok d = true -> restrict re_ok d = true ->
+    write_prop env idx d = Ok o -> fvalue_typed d fv = true ->
+    (validate_sem re_ok re_match (defined_numbers env) o fv = VAccept <-> rule_sem pat_sem env d fv) /\
+    (validate_sem re_ok re_match (defined_numbers env) o fv = VReject <-> ~ rule_sem pat_sem env d fv).
+
+Theorem c12_partial : c12_statement evaluable.
+Proof.
+  intros re_ok re_match pat_sem He env idx d o fv Hwf Hkp Hev Hw Hty.
+  exact (c12_main re_ok re_match pat_sem (proj1 He) (proj1 (proj2 He)) (engine_id62_bool re_ok re_match pat_sem He)
+           env idx d o fv Hwf Hkp Hev Hw Hty).
+Qed.
+
+(* witness 1: array of objects with uniqueItems = true, one item *)
+Definition w_unique_obj : prop :=
+  P [97%N] false false (PArray (Some (AR None None (Some true))) None (TObject false None)) [].
+(* witness 2: a string whose pattern is "[" *)
+Definition w_bad_pattern : prop :=
+  P [97%N] false false (PSingle (TStr None (Some (SR (Some [91%N]) None None)) None)) [].
+
+Theorem c12_unique_messages_refuted :
+  forall re_ok re_match pat_sem, exists o,
+    write_prop (EE [] None []) 0 w_unique_obj = Ok o /\
+    fvalue_typed w_unique_obj (FMany [VMsg 0]) = true /\
+    rule_sem pat_sem (EE [] None []) w_unique_obj (FMany [VMsg 0]) /\
+    validate_sem re_ok re_match (defined_numbers (EE [] None [])) o (FMany [VMsg 0]) = VError ERuntime.
+Proof.
+  intros re_ok re_match pat_sem. eexists. split; [reflexivity|]. split; [reflexivity|]. split; [|reflexivity].
+  unfold rule_sem, w_unique_obj. cbn [p_ty]. split; [intros _; discriminate|]. split.
+  - intros r' Hr. inversion Hr; subst. split.
+    + split; intros m Hm; discriminate.
+    + intros _ i j a b Hij Ha Hb. destruct i as [|i]; [|destruct i; discriminate].
+      destruct j as [|j]; [lia|]. destruct j; discriminate.
+  - constructor; [exact I|constructor].
+Qed.
+
+Theorem c12_bad_pattern_refuted :
+  forall re_ok re_match p, re_ok p = false ->
+  forall env idx name l desc, exists o,
+    write_prop env idx (P name false false (PSingle (TStr None (Some (SR (Some p) None None)) l)) desc) = Ok o /\
+    forall fv, validate_sem re_ok re_match (defined_numbers env) o fv = VError ECompile.
+Proof.
+  intros re_ok re_match p Hp env idx name l desc. eexists. split; [reflexivity|].
+  intro fv. unfold validate_sem, field_compiles. cbn. rewrite Hp. reflexivity.
+Qed.
+
+Theorem c12_full_refuted : ~ c12_statement (fun _ _ => true).
+Proof.
+  intro H.
+  destruct (c12_unique_messages_refuted re_class_ok re_class_count (fun p s => re_class_count p s = true)) as [o [Hw [Hty [Hr Hv]]]].
+  destruct (H re_class_ok re_class_count _ class_count_engine (EE [] None []) 0%N w_unique_obj o (FMany [VMsg 0])
+              eq_refl eq_refl eq_refl Hw Hty) as [Ha _].
+  apply Ha in Hr. rewrite Hv in Hr. discriminate.
+Qed.
+
+(* components, in the form the props file states them *)
+Lemma int_bounds_sem rm defined k r c z :
+  write_int_rules k r = Ok c ->
+  (eval_scalar rm defined c (VInt z) = true <-> int_sem r z).
+Proof. intro Hw. rewrite (int_sem_b rm defined k r c z Hw). apply int_rule_ok_spec. Qed.
+
+Lemma unique_scan_sem vs : unique_scan [] vs = true <-> all_different vs.
+Proof. rewrite unique_scan_distinct. apply distinct_spec. Qed.
+
+Lemma uuid_validator_sem s :
+  (match s with [] => true | _ => uuid_regex s end) && negb (match s with [] => true | _ => false end) = true
+  <-> uuid_text s.
+Proof.
+  rewrite <- uuid_regex_spec. destruct s; [split; discriminate|]. rewrite andb_true_r. reflexivity.
+Qed.
+
+Lemma enum_numbers_sem env names zs n :
+  wf_env env = true -> map_values env names = Ok zs ->
+  (memZ n zs = true <-> exists name, In name names /\ names_value env name n).
+Proof.
+  intros Hwf Hm. rewrite (mapped_mem env names zs n Hwf Hm).
+  destruct (option_name env n) as [nm|] eqn:Eo.
+  - rewrite mem_str_In. unfold names_full. rewrite in_map_iff. split.
+    + intros [name [Hn Hin]]. exists name. split; [exact Hin|]. apply names_value_spec. congruence.
+    + intros [name [Hin Hv]]. apply names_value_spec in Hv. exists name. split; [congruence|exact Hin].
+  - split; [discriminate|]. intros [name [_ Hv]]. apply names_value_spec in Hv. congruence.
+Qed.
